@@ -85,7 +85,13 @@ fn main() {
                             eprintln!("unknown property {} in replay file", id);
                             2
                         }
-                        Some(c) => replay(c.as_ref(), &v),
+                        Some(c) => {
+                            if args.iter().any(|a| a == "--inner") {
+                                replay(c.as_ref(), &v)
+                            } else {
+                                replay_contained(c.as_ref(), &v, &path)
+                            }
+                        }
                     }
                 }
             }
